@@ -175,6 +175,22 @@ CLAIMS = {
         technique="recorded parse traces of the real parser validated by TLC against a TLA+ specification of well-formed graphs; independent resolver as oracle for C07",
         design_ref='6/C09',
     ),
+    "C15": dict(
+        engine="tools",
+        level="model_checking",
+        text="specs/tools/Update.tla defines over per-vm state derivation relations (independent resolver, remove set composed for the one vm) what an update request must do: rerun the tests producing the states on the path from..to (both included), every worker removes exactly that vm's states derived from the target, nothing else, unknown states rejected. TLC enumerates all requests (selections x valid pairs x unknown state x worker counts) and checks OnlySelected/PathNotRemoved/BothEndsIncluded/NothingBeforeStart/UnknownRejected; a seeded sample of the requests (all that fit the budget in the thorough tier) is executed on the real intertest_setup.update under the traversal environment and compared",
+        note="test processes, state control and job are substituted at the seams the selftests use; every test passes; the sample suite's vm variants CentOS/Win10/Ubuntu",
+        technique="TLA+ spec + TLC exhaustive enumeration of requests, transitions replayed on the real tools under the virtual-time environment",
+        design_ref='6/C15',
+    ),
+    "C20": dict(
+        engine="tools",
+        level="model_checking",
+        text='specs/tools/ManuChain.tla: (A) chain loop - each step once, in order, failure by non-zero return or exception reported as 1 without stopping; (B) tool call - state steps one test per selected vm per compatible worker, vm-management steps one test per compatible worker for all selected vms. TLC enumerates all chains up to the bound x outcome placements and all tool x selection x worker-set combinations; chains are executed on the real Manu.run with recording steps, tool calls on the real intertest_setup.<tool> under the traversal environment (executions per worker and vm, vm_action, a marker parameter and own-worker execution compared)',
+        note="test processes, state control and job are substituted at the seams the selftests use; every test passes; the sample suite's vm variants CentOS/Win10/Ubuntu",
+        technique="TLA+ spec + TLC exhaustive enumeration of requests, transitions replayed on the real tools under the virtual-time environment",
+        design_ref='6/C20',
+    ),
 }
 
 NOT_YET = "machinery for this property is not built yet in this revision (see DESIGN.md section 9 build order)"
@@ -216,6 +232,8 @@ def build():
                                "state executed on the real classes with the projected state compared"},
             {"name": "parse", "path": "/verif/specs/parse", "serves_properties": [p for p in ALL if p in CLAIMS and CLAIMS[p]["engine"] == "parse"],
              "kind_free_text": "TLA+ specification of well-formed parsed graphs; recorded parse events and snapshots of the real parser validated by TLC"},
+            {"name": "tools", "path": "/verif/specs/tools", "serves_properties": [p for p in ALL if p in CLAIMS and CLAIMS[p]["engine"] == "tools"],
+             "kind_free_text": "TLA+ specifications of the update tool and of manual step chains; TLC-enumerated requests executed on the real tools"},
             {"name": "traversal", "path": "/verif/specs/traversal", "serves_properties":
                 [p for p in ALL if p in CLAIMS and CLAIMS[p]["engine"] == "traversal"],
              "kind_free_text": "TLA+ model of the multi-worker graph traversal + virtual-time harness driving the real "
